@@ -1069,6 +1069,24 @@ func diskFacts(f *facts) {
 		v, _ := strconv.Unquote(bl.Value)
 		f.strs["disk_temp_suffix"] = []string{v}
 	}
+	f.note["disk_temp_name"] = "util.WriteFileAt: the expression that names the temporary file (the name opened for writing): it is derived from the final name, so two writers of different chunks never share it"
+	var tn []string
+	if fd := fn(files, "WriteFileAt", ""); fd != nil {
+		var opened string
+		inspect(fd.Body, func(n ast.Node) bool {
+			if c, ok := n.(*ast.CallExpr); ok && src(c.Fun) == "unix.Openat" && len(c.Args) >= 2 && opened == "" {
+				opened = src(c.Args[1])
+			}
+			return true
+		})
+		inspect(fd.Body, func(n ast.Node) bool {
+			if as, ok := n.(*ast.AssignStmt); ok && len(as.Lhs) == 1 && len(as.Rhs) == 1 && src(as.Lhs[0]) == opened {
+				tn = append(tn, src(as.Rhs[0]))
+			}
+			return true
+		})
+	}
+	f.strs["disk_temp_name"] = tn
 	f.note["disk_matchers"] = "MatchChunkID of fluentdforward and datadog: the returned expression"
 	var ms []string
 	for _, file := range []string{"output/fluentdforward/config.go", "output/datadog/config.go"} {
